@@ -52,6 +52,12 @@ def run(tier, seed, replay=None):
     for i in range(n_cases):
         size = "small" if i % 3 else "medium"
         crng = random.Random(rng.getrandbits(64))
+        if i % 8 == 7:
+            # rules with optional items (context, lhs `cls?`, body groups): expanded by the proved model before the comparison
+            prog = gen.gen_opt_program(crng)
+            prog.c02_expand = True
+            cases.append(("c%04d" % i, prog))
+            continue
         prog = gen.gen_match_program(crng, size=size)
         if i % 3 == 1:
             gen.add_pos_table_first(crng, prog)      # tables written in another order than the passes run
@@ -63,7 +69,7 @@ def run(tier, seed, replay=None):
     rejected = [r for r in results if r not in accepted]
     lines = []
     for r in accepted:
-        lines += ["font %s/out.ttf" % r["dir"], "ir %s/p.ir.json" % r["dir"], "c02"]
+        lines += ["font %s/out.ttf" % r["dir"], "ir %s/p.ir.json" % r["dir"]] + (["expand"] if getattr(r["prog"], "c02_expand", False) else []) + ["c02"]
     outs = common.run_grcv(lines) if lines else []
     # parse: per accepted case we get: ok font, ok ir, pass lines..., done
     it = iter(outs)
@@ -75,6 +81,14 @@ def run(tier, seed, replay=None):
         l1 = next(it)
         l2 = next(it)
         plines = []
+        if getattr(r["prog"], "c02_expand", False):
+            for l in it:
+                if l == "done":
+                    break
+                if not l.startswith("ok expanded") and not l.startswith("REFOMITTED"):
+                    plines.append("pass expand " + l)
+                elif l.startswith("ok expanded"):
+                    stats["optional_item_programs"] += 1
         for l in it:
             if l == "done":
                 break
@@ -118,9 +132,10 @@ def run(tier, seed, replay=None):
         "traces_validated_against_impl": passes_checked,
         "disagreements_checked": stats["pass_fail"],
         "passes_certified": stats["pass_ok"],
+        "optional_item_programs": stats["optional_item_programs"],
         "evaluations": passes_checked,
         "distinct_nontrivial": len(distinct),
-        "rule": "generated substitution programs (overlapping/nested/duplicate classes, rules of mixed length and pre-context, insertions, deletions); one evaluation = one pass whose decoded FSM was certified against the IR rules for ALL glyph strings; distinct = distinct (rules,rows,cols,labelled) shapes",
+        "rule": "generated substitution programs (overlapping/nested/duplicate classes, rules of mixed length and pre-context, insertions, deletions; one case in eight has optional items, expanded by the proved model of the expansion); one evaluation = one pass whose decoded FSM was certified against the IR rules for ALL glyph strings; distinct = distinct (rules,rows,cols,labelled) shapes",
         "samples": samples,
         "exhaustive": False,
     })
